@@ -505,3 +505,14 @@ void pl_C05_probe(void)
   USE(lemma_osec_inj_REQ(s, a), lemma_osec_inj_ENS(s, a), "osec_inj");
   __CPROVER_assert(!(n == 86400 && a.y == 2020 && s.y == 2020), "PROBE: must fail (the end of the harness is reachable with a concrete-looking input)");
 }
+/* the same probe for the month alignment (must FAIL: 2020-03 + 14 months - 14 months is reachable) */
+void pl_C05_probe_month(void)
+{
+  fields a; diff_t n;
+  __CPROVER_assume(OVALID(a) && ALIGNED_month(a) && REPR_month(UNIT_month(a) + n));
+  USE(lemma_unitrepr_REQ(a), lemma_unitrepr_ENS(a), "unitrepr");
+  fields r = ct_month_plus(a, n);
+  fields s = ct_month_minus(r, n);
+  USE(lemma_monord_inj_REQ(s, a), lemma_monord_inj_ENS(s, a), "monord_inj");
+  __CPROVER_assert(!(n == 14 && a.y == 2020 && a.m == 3 && s.y == 2020 && r.y == 2021 && r.m == 5), "PROBE: must fail (the end of the harness is reachable with a concrete-looking input)");
+}
